@@ -113,4 +113,6 @@ let () =
     "h" ^ hex_of_str text
     | _ -> "BADARGS");
   register "jscan" (function [t] -> string_of_bool (JsonSpec.no_lone_surrogate_escape (str_of_hex t)) | _ -> "BADARGS");
+  register "jcost" (function [t] -> decimal_of_n (Json.xparse_cost Json.xmax_depth (str_of_hex t)) | _ -> "BADARGS");
+  register "jsizes" (function [] -> decimal_of_n Json.coq_VALUE_SIZE ^ " " ^ decimal_of_n Json.coq_MEMBER_SIZE | _ -> "BADARGS");
   register "jisnum" (function [t] -> string_of_bool (Json.is_json_number (str_of_hex t)) | _ -> "BADARGS")
